@@ -188,3 +188,133 @@ Example C01_declared_different_keys_no_edge :
   | inr tb => match tb 0 with Some T => t_task_dep T | None => [99] end
   | inl _ => [98] end = [].
 Proof. vm_compute. reflexivity. Qed.
+
+(* ---- related tasks never execute concurrently (Proofs/NoOverlapP.v) ----
+   The sentence "two tasks related by a dependency never execute concurrently" as theorems about the merged log
+   of the parallel runners -- every table, oracle, flag combination, flavour (proc = true: MRunner with processes,
+   false: MThreadRunner), number of workers, EVERY schedule, every fuel (so every prefix of a run), every selection.
+   [PStart k w] / [PEnd k w]: the actions of k start / have ended in worker w; the execution interval of k is the
+   part of the log between the two. *)
+From DoitV Require Import NoOverlapP.
+
+(* the main thread reports the result of an executed task only after the worker delivered it: between the start
+   of k in worker w and any final report of k (ESuccess / EFailure / ESkipUpToDate / ESkipIgnore) lies [PEnd k w] *)
+Theorem C01_parallel_end_before_report :
+  forall tasks wake_rank calc_rank continue_ always proc fuel nprocs sched selection l1 k w l2 e l3,
+    fst (run_parallel tasks wake_rank calc_rank continue_ always proc fuel nprocs sched selection)
+      = l1 ++ PStart k w :: l2 ++ PE e :: l3 ->
+    is_final_ev k e = true ->
+    In (PEnd k w) l2.
+Proof. exact parallel_end_before_report. Qed.
+Print Assumptions C01_parallel_end_before_report.
+
+(* a task that already has its final report is never started (with C02_exec_once_parallel: no task is started twice) *)
+Theorem C01_parallel_no_start_after_report :
+  forall tasks wake_rank calc_rank continue_ always proc fuel nprocs sched selection pre k w post,
+    fst (run_parallel tasks wake_rank calc_rank continue_ always proc fuel nprocs sched selection)
+      = pre ++ PStart k w :: post ->
+    ~ pfinished pre k.
+Proof. exact parallel_no_start_after_report. Qed.
+Print Assumptions C01_parallel_no_start_after_report.
+
+(* a task that effectively depends on itself is never started, by any worker *)
+Theorem C01_parallel_self_dep_never_starts :
+  forall tasks wake_rank calc_rank continue_ always proc fuel nprocs sched selection a w,
+    eff_dep tasks a a ->
+    ~ In (PStart a w) (fst (run_parallel tasks wake_rank calc_rank continue_ always proc fuel nprocs sched selection)).
+Proof. exact parallel_self_dep_never_starts. Qed.
+Print Assumptions C01_parallel_self_dep_never_starts.
+
+(* the execution intervals of two tasks related by an effective dependency -- in EITHER direction, no other
+   hypothesis, not even a <> b -- are disjoint: whenever a starts (in worker wa) and later b starts (in any
+   worker), the actions of a have ended in wa in between.  (If the later one is the dependency, the situation is
+   impossible: it had its final report before the earlier one started and is not started afterwards.) *)
+Theorem C01_parallel_no_overlap :
+  forall tasks wake_rank calc_rank continue_ always proc fuel nprocs sched selection l1 a wa l2 b wb l3,
+    fst (run_parallel tasks wake_rank calc_rank continue_ always proc fuel nprocs sched selection)
+      = l1 ++ PStart a wa :: l2 ++ PStart b wb :: l3 ->
+    eff_dep tasks a b \/ eff_dep tasks b a ->
+    In (PEnd a wa) l2.
+Proof. exact parallel_no_overlap. Qed.
+Print Assumptions C01_parallel_no_overlap.
+
+(* the declared dependencies (task_dep, calc_dep, setup -- as in C01_parallel_dep_order) are the special case *)
+Theorem C01_parallel_no_overlap_static :
+  forall tasks wake_rank calc_rank continue_ always proc fuel nprocs sched selection l1 a wa l2 b wb l3,
+    fst (run_parallel tasks wake_rank calc_rank continue_ always proc fuel nprocs sched selection)
+      = l1 ++ PStart a wa :: l2 ++ PStart b wb :: l3 ->
+    In a (static_deps tasks b) \/ In b (static_deps tasks a) ->
+    In (PEnd a wa) l2.
+Proof. exact parallel_no_overlap_static. Qed.
+Print Assumptions C01_parallel_no_overlap_static.
+
+(* interval form.  [running_at p k]: at the end of the log prefix p the actions of k are executing -- p contains
+   [PStart k w] with no [PEnd k w] after it.  At no point of any run are two related tasks both executing
+   (for a = b: a task depending on itself is never executing) *)
+Theorem C01_parallel_never_concurrent :
+  forall tasks wake_rank calc_rank continue_ always proc fuel nprocs sched selection p rest a b,
+    fst (run_parallel tasks wake_rank calc_rank continue_ always proc fuel nprocs sched selection) = p ++ rest ->
+    eff_dep tasks a b \/ eff_dep tasks b a ->
+    ~ ((exists l1 w l2, p = l1 ++ PStart a w :: l2 /\ ~ In (PEnd a w) l2) /\
+       (exists l1 w l2, p = l1 ++ PStart b w :: l2 /\ ~ In (PEnd b w) l2)).
+Proof. exact parallel_never_concurrent. Qed.
+Print Assumptions C01_parallel_never_concurrent.
+
+Theorem C01_parallel_never_concurrent_static :
+  forall tasks wake_rank calc_rank continue_ always proc fuel nprocs sched selection p rest a b,
+    fst (run_parallel tasks wake_rank calc_rank continue_ always proc fuel nprocs sched selection) = p ++ rest ->
+    In a (static_deps tasks b) \/ In b (static_deps tasks a) ->
+    ~ (running_at p a /\ running_at p b).
+Proof. exact parallel_never_concurrent_static. Qed.
+Print Assumptions C01_parallel_never_concurrent_static.
+
+(* non-vacuity: tasks DO overlap when nothing relates them.  Tasks 1 and 2 are independent, 3 has task_dep 1.
+   Process flavour, 2 workers, schedule [0;0;1;1]: 1 starts in worker 0, 2 starts in worker 1 while 1 is executing;
+   1 ends and is reported; 3 starts in worker 0 -- after [PEnd 1 0] -- and runs to its end while 2 is STILL
+   executing in worker 1.  So 2 overlaps both 1 and 3; the related pair 1, 3 does not overlap.
+   View: (0,k,w) = PStart k w, (1,k,w) = PEnd k w, (2,k,_) = ESuccess k *)
+Definition ov_tasks (n : name) : option task :=
+  match n with
+  | 1 => Some empty_task
+  | 2 => Some empty_task
+  | 3 => Some (Build_task [1] [] [] false false CkRun false OOk [] [] [])
+  | _ => None end.
+Definition ov_view (e : pevent) : list (N * name * nat) :=
+  match e with PStart k w => [(0, k, w)] | PEnd k w => [(1, k, w)] | PE (ESuccess k) => [(2, k, 0%nat)] | _ => [] end.
+Example C01_overlap_nonvacuous :
+  flat_map ov_view (fst (run_parallel ov_tasks (fun _ _ => 0) (fun _ => 0) false false true 200 2 [0;0;1;1]%nat [1;2;3]))
+  = [(0, 1, 0%nat); (0, 2, 1%nat); (1, 1, 0%nat); (2, 1, 0%nat);
+     (0, 3, 0%nat); (1, 3, 0%nat); (2, 3, 0%nat); (1, 2, 1%nat); (2, 2, 0%nat)].
+Proof. vm_compute. reflexivity. Qed.
+
+(* the same in the vocabulary of C01_parallel_never_concurrent: a prefix of that log at whose end the unrelated
+   tasks 1 and 2 are both executing, and a later one at whose end 2 and 3 are *)
+Example C01_unrelated_tasks_run_concurrently :
+  let log := fst (run_parallel ov_tasks (fun _ _ => 0) (fun _ => 0) false false true 200 2 [0;0;1;1]%nat [1;2;3]) in
+  (exists p rest, log = p ++ rest /\ running_at p 1 /\ running_at p 2) /\
+  (exists p rest, log = p ++ rest /\ running_at p 2 /\ running_at p 3) /\
+  ~ (eff_dep ov_tasks 1 2 \/ eff_dep ov_tasks 2 1) /\ ~ (eff_dep ov_tasks 2 3 \/ eff_dep ov_tasks 3 2) /\
+  eff_dep ov_tasks 3 1.
+Proof.
+  assert (NC : forall t c, t = 1 \/ t = 2 \/ t = 3 -> ~ eff_calc ov_tasks t c).
+  { intros t c Ht H. induction H as [c H|c c' _ IH _]; [|exact IH].
+    destruct Ht as [-> | [-> | ->]]; exact H. }
+  assert (ND : forall t y, t = 1 \/ t = 2 \/ t = 3 -> eff_dep ov_tasks t y -> In y (static_deps ov_tasks t)).
+  { intros t y Ht [H|c H _]; [exact H|]. exfalso. exact (NC t c Ht H). }
+  cbv zeta. split; [|split; [|split; [|split]]].
+  - eexists (firstn 5 _), (skipn 5 _). split; [symmetry; apply firstn_skipn|]. vm_compute. split.
+    + exists [PE (EGetStatus 1); PE (EGetStatus 2)], 0%nat, [PE (EExecute 1); PStart 2 1].
+      split; [reflexivity|]. simpl. intuition discriminate.
+    + exists [PE (EGetStatus 1); PE (EGetStatus 2); PStart 1 0; PE (EExecute 1)], 1%nat, [].
+      split; [reflexivity|]. simpl. tauto.
+  - eexists (firstn 11 _), (skipn 11 _). split; [symmetry; apply firstn_skipn|]. vm_compute. split.
+    + exists [PE (EGetStatus 1); PE (EGetStatus 2); PStart 1 0; PE (EExecute 1)], 1%nat,
+             [PEnd 1 0; PE (EExecute 2); PE (ESave 1); PE (ESuccess 1); PE (EGetStatus 3); PStart 3 0].
+      split; [reflexivity|]. simpl. intuition discriminate.
+    + exists [PE (EGetStatus 1); PE (EGetStatus 2); PStart 1 0; PE (EExecute 1); PStart 2 1; PEnd 1 0;
+              PE (EExecute 2); PE (ESave 1); PE (ESuccess 1); PE (EGetStatus 3)], 0%nat, [].
+      split; [reflexivity|]. simpl. tauto.
+  - intros [H|H]; apply ND in H; auto; vm_compute in H; tauto.
+  - intros [H|H]; apply ND in H; auto; vm_compute in H; intuition discriminate.
+  - apply ed_static. vm_compute. auto.
+Qed.
